@@ -74,6 +74,8 @@ Definition nuts_leaf_eval (A : list (list Q)) (e : Q) (x p : list Q) : list Z :=
    part of this model: it runs only when the first leapfrog's gradient is non-finite too.) ---- *)
 Inductive xval (A : Type) : Type := XFin (q : A) | XNegInf | XPosInf | XNaN.
 Arguments XFin {A}. Arguments XNegInf {A}. Arguments XPosInf {A}. Arguments XNaN {A}.
+Definition xmap {A B : Type} (f : A -> B) (v : xval A) : xval B :=
+  match v with XFin q => XFin (f q) | XNegInf => XNegInf | XPosInf => XPosInf | XNaN => XNaN end.
 
 Section FindEpsX.
   Variable K : Num.
